@@ -10,22 +10,31 @@ import (
 	"net"
 	"net/http"
 	"net/http/httptest"
+	"os"
 	"regexp"
+	"runtime"
+	"runtime/pprof"
 	"strconv"
 	"strings"
 	"sync"
+	"time"
 
 	"github.com/samber/lo"
 
 	v1 "github.com/fatedier/frp/pkg/config/v1"
 	plugin "github.com/fatedier/frp/pkg/plugin/server"
+	frplog "github.com/fatedier/frp/pkg/util/log"
 )
 
 // Engine "plugin" (C15): the real plugin.Manager with
 //   - stub Plugin implementations (kinds acc, accC, app, setb, zero, rej, rejmod, err, nil, rejsuf, errsuf)
 //   - real httpPlugin instances (plugin.NewHTTPPluginOptions) talking to one scripted HTTP server
 //     (kinds h…: hacc happ hpart haccC hct hrej hrejU hempty hnull hcnull hcnullU hcstr hbadfield
-//     hmal htrunc hs<code> hreset hrefused hrejsuf herrsuf)
+//     hmal htrunc hs<code> hreset hrefused hrejsuf herrsuf; hxlat <t> <v>: the content member `a` equal to the ticket t
+//     becomes v, anything else is rejected; hsub <t> <v>: t becomes v, anything else passes unchanged)
+//
+// the scripted HTTP server can be put into HOLD mode (`J` steps of `hist`, eng_plugin_par.go): a request is put on record
+// when it arrives and answered only when the scenario releases it, with the script its plugin has at that moment.
 //
 // every registered plugin is wrapped in a recorder that notes (id, content seen) per Handle call.
 //
@@ -39,8 +48,11 @@ import (
 // Visible content members (a, b) per op:
 //
 //	Login: Login.User, ClientAddress          NewProxy: NewProxy.ProxyName, User.User
-//	CloseProxy: CloseProxy.ProxyName, User.User   Ping: Ping.PrivilegeKey, User.User
-//	NewWorkConn: NewWorkConn.RunID, User.User NewUserConn: ProxyName, RemoteAddr
+//	CloseProxy: CloseProxy.ProxyName, User.User   Ping: credentials of the Ping, User.User
+//	NewWorkConn: credentials of the NewWorkConn, User.User NewUserConn: ProxyName, RemoteAddr
+//
+// credentials = PrivilegeKey and Timestamp as ONE string (credStr): the key alone when the timestamp is 0, else
+// <key>@<timestamp>; what pkg/auth checks is a function of exactly this pair.
 type plugSeen struct {
 	id   int
 	a, b string
@@ -62,6 +74,8 @@ type plugState struct {
 	httpRegs  []v1.HTTPPluginOptions // every h… registration, in order (for `site`)
 	siteBad   string                 // why `site` cannot run on this chain ("" = it can)
 	wire      []plugWire             // requests seen by the scripted HTTP server
+	wireGen   int                    // bumped whenever wire is reset
+	hold      *holdState             // non-nil: every request is recorded, then held until released
 }
 
 type plugWire struct {
@@ -69,6 +83,41 @@ type plugWire struct {
 	id   int
 	a, b string
 	r0   bool // the scripted server answered "reject" with an empty reject_reason
+	// whose occurrence this request belongs to: the remote address of the user connection (NewUserConn), the
+	// client address (Login), the run id of the session (Ping, NewProxy, NewWorkConn, CloseProxy)
+	key string
+	// NewWorkConn: the run id of the message is not the run id of the session it is offered under
+	ridBad bool
+}
+
+// one request the scripted server is holding back (hold mode: the plugin takes its time to answer)
+type heldReq struct {
+	idx int // index into plugState.wire
+	w   plugWire
+	rel chan struct{}
+}
+
+type holdState struct {
+	ev  chan *heldReq // arrivals
+	off chan struct{} // closed when the hold ends: whatever is still held is answered
+}
+
+func wireKey(content any) (string, bool) {
+	switch c := content.(type) {
+	case plugin.LoginContent:
+		return c.ClientAddress, false
+	case plugin.NewProxyContent:
+		return c.User.RunID, false
+	case plugin.CloseProxyContent:
+		return c.User.RunID, false
+	case plugin.PingContent:
+		return c.User.RunID, false
+	case plugin.NewWorkConnContent:
+		return c.User.RunID, c.NewWorkConn.RunID != c.User.RunID
+	case plugin.NewUserConnContent:
+		return c.RemoteAddr, false
+	}
+	return "", false
 }
 
 var plugPathSeq int // never reset: a late request of an earlier Service must not hit a new script
@@ -79,6 +128,33 @@ var (
 	plugSrvOnce sync.Once
 	plugDead    string
 )
+
+// ---- credentials (privilege key + timestamp) as one visible member
+
+func credStr(key string, ts int64) string {
+	if ts == 0 {
+		return key
+	}
+	return key + "@" + strconv.FormatInt(ts, 10)
+}
+
+// inverse of credStr: a trailing @<positive decimal without leading zero, fitting int64> is the timestamp
+func credSplit(a string) (string, int64) {
+	i := strings.LastIndexByte(a, '@')
+	if i < 0 || i+1 >= len(a) || a[i+1] < '1' || a[i+1] > '9' {
+		return a, 0
+	}
+	for _, ch := range a[i+1:] {
+		if ch < '0' || ch > '9' {
+			return a, 0
+		}
+	}
+	ts, err := strconv.ParseInt(a[i+1:], 10, 64)
+	if err != nil {
+		return a, 0
+	}
+	return a[:i], ts
+}
 
 // ---- content access
 
@@ -97,13 +173,13 @@ func getAB(content any) (string, string) {
 	case *plugin.CloseProxyContent:
 		return c.CloseProxy.ProxyName, c.User.User
 	case plugin.PingContent:
-		return c.Ping.PrivilegeKey, c.User.User
+		return credStr(c.Ping.PrivilegeKey, c.Ping.Timestamp), c.User.User
 	case *plugin.PingContent:
-		return c.Ping.PrivilegeKey, c.User.User
+		return credStr(c.Ping.PrivilegeKey, c.Ping.Timestamp), c.User.User
 	case plugin.NewWorkConnContent:
-		return c.NewWorkConn.RunID, c.User.User
+		return credStr(c.NewWorkConn.PrivilegeKey, c.NewWorkConn.Timestamp), c.User.User
 	case *plugin.NewWorkConnContent:
-		return c.NewWorkConn.RunID, c.User.User
+		return credStr(c.NewWorkConn.PrivilegeKey, c.NewWorkConn.Timestamp), c.User.User
 	case plugin.NewUserConnContent:
 		return c.ProxyName, c.RemoteAddr
 	case *plugin.NewUserConnContent:
@@ -125,10 +201,12 @@ func withAB(content any, a, b string) any {
 		c.CloseProxy.ProxyName, c.User.User = a, b
 		return &c
 	case plugin.PingContent:
-		c.Ping.PrivilegeKey, c.User.User = a, b
+		c.Ping.PrivilegeKey, c.Ping.Timestamp = credSplit(a)
+		c.User.User = b
 		return &c
 	case plugin.NewWorkConnContent:
-		c.NewWorkConn.RunID, c.User.User = a, b
+		c.NewWorkConn.PrivilegeKey, c.NewWorkConn.Timestamp = credSplit(a)
+		c.User.User = b
 		return &c
 	case plugin.NewUserConnContent:
 		c.ProxyName, c.RemoteAddr = a, b
@@ -264,13 +342,19 @@ func reqContent(op string, raw json.RawMessage) (any, error) {
 func partialJSON(op, a string) string {
 	key := map[string]string{
 		plugin.OpLogin: "user", plugin.OpNewProxy: "proxy_name", plugin.OpCloseProxy: "proxy_name",
-		plugin.OpPing: "privilege_key", plugin.OpNewWorkConn: "run_id", plugin.OpNewUserConn: "proxy_name",
+		plugin.OpPing: "privilege_key", plugin.OpNewWorkConn: "privilege_key", plugin.OpNewUserConn: "proxy_name",
 	}[op]
+	if op == plugin.OpPing || op == plugin.OpNewWorkConn {
+		k, ts := credSplit(a)
+		v, _ := json.Marshal(k)
+		return fmt.Sprintf(`{%q:%s,"timestamp":%d}`, key, v, ts)
+	}
 	v, _ := json.Marshal(a)
 	return fmt.Sprintf(`{%q:%s}`, key, v)
 }
 
 func plugHTTPHandler(w http.ResponseWriter, r *http.Request) {
+	pst := pst // a request of an earlier chain that is answered late must not touch the state of a later one
 	pst.mu.Lock()
 	sc := pst.scripts[r.URL.Path]
 	pst.mu.Unlock()
@@ -290,11 +374,39 @@ func plugHTTPHandler(w http.ResponseWriter, r *http.Request) {
 		return
 	}
 	a, b := getAB(content)
+	key, ridBad := wireKey(content)
 	pst.mu.Lock()
+	idx, gen, hold := len(pst.wire), pst.wireGen, pst.hold
+	we := plugWire{op: req.Op, id: sc.id, a: a, b: b, key: key, ridBad: ridBad}
+	pst.wire = append(pst.wire, we)
+	pst.mu.Unlock()
+	if hold != nil {
+		// the request is on record; the answer is given when the scenario says so, by the script of THAT moment
+		hr := &heldReq{idx: idx, w: we, rel: make(chan struct{})}
+		select {
+		case hold.ev <- hr:
+			select {
+			case <-hr.rel:
+			case <-hold.off:
+			case <-time.After(10 * time.Second):
+			}
+		case <-hold.off:
+		}
+		pst.mu.Lock()
+		if cur := pst.scripts[r.URL.Path]; cur != nil {
+			sc = cur
+		}
+		pst.mu.Unlock()
+	}
 	r0 := (sc.kind == "hrej" || sc.kind == "hrejU") && sc.x1 == "" ||
 		sc.kind == "hrejsuf" && sc.x2 == "" && strings.HasSuffix(a, sc.x1)
-	pst.wire = append(pst.wire, plugWire{req.Op, sc.id, a, b, r0})
-	pst.mu.Unlock()
+	if r0 {
+		pst.mu.Lock()
+		if pst.wireGen == gen && idx < len(pst.wire) {
+			pst.wire[idx].r0 = true
+		}
+		pst.mu.Unlock()
+	}
 	js := func(v any) string { buf, _ := json.Marshal(v); return string(buf) }
 	reply := func(s string) {
 		w.Header().Set("Content-Type", "application/json")
@@ -350,6 +462,18 @@ func plugHTTPHandler(w http.ResponseWriter, r *http.Request) {
 		} else {
 			reply(`{"reject":false,"unchange":true}`)
 		}
+	case sc.kind == "hxlat": // a translator: the ticket x1 becomes x2, anything else is turned away
+		if a == sc.x1 {
+			reply(`{"reject":false,"unchange":false,"content":` + js(withAB(content, sc.x2, b)) + `}`)
+		} else {
+			reply(`{"reject":true,"reject_reason":"no ticket"}`)
+		}
+	case sc.kind == "hsub": // x1 becomes x2, anything else passes as it is
+		if a == sc.x1 {
+			reply(`{"reject":false,"unchange":false,"content":` + js(withAB(content, sc.x2, b)) + `}`)
+		} else {
+			reply(`{"reject":false,"unchange":true}`)
+		}
 	case sc.kind == "herrsuf": // fails for some contents only (a transient / content dependent failure)
 		w.Header().Set("Content-Type", "application/json")
 		if strings.HasSuffix(a, sc.x1) {
@@ -368,6 +492,9 @@ func plugHTTPHandler(w http.ResponseWriter, r *http.Request) {
 
 func plugReset() {
 	plugSrvOnce.Do(func() {
+		// frp's console logger writes to stdout, where the trace goes: a recovered panic the server logs (a work
+		// connection that registers while its session ends) must not tear the trace apart
+		frplog.InitLogger(os.DevNull, "error", 0, true)
 		plugSrv = httptest.NewServer(http.HandlerFunc(plugHTTPHandler))
 		l, err := net.Listen("tcp", "127.0.0.1:0")
 		if err != nil {
@@ -420,12 +547,12 @@ func plugCall(op, a, b string) (res string) {
 		return gatedRes(r, err)
 	case plugin.OpPing:
 		c := &plugin.PingContent{User: plugin.UserInfo{User: b}}
-		c.Ping.PrivilegeKey = a
+		c.Ping.PrivilegeKey, c.Ping.Timestamp = credSplit(a)
 		r, err := pst.mgr.Ping(c)
 		return gatedRes(r, err)
 	case plugin.OpNewWorkConn:
 		c := &plugin.NewWorkConnContent{User: plugin.UserInfo{User: b}}
-		c.NewWorkConn.RunID = a
+		c.NewWorkConn.PrivilegeKey, c.NewWorkConn.Timestamp = credSplit(a)
 		r, err := pst.mgr.NewWorkConn(c)
 		return gatedRes(r, err)
 	case plugin.OpNewUserConn:
@@ -448,10 +575,38 @@ func plugCall(op, a, b string) (res string) {
 	return "bad-op"
 }
 
+// VERIF_PLUG_PROF=<file>: every 5000 ops the number of goroutines and the heap in use go to stderr and a heap
+// profile is written to <file> (diagnosis of what a long run accumulates)
+var plugOps4Prof int
+
+func plugProf() {
+	f := os.Getenv("VERIF_PLUG_PROF")
+	if f == "" {
+		return
+	}
+	plugOps4Prof++
+	if plugOps4Prof%5000 != 0 {
+		return
+	}
+	runtime.GC()
+	var ms runtime.MemStats
+	runtime.ReadMemStats(&ms)
+	fmt.Fprintf(os.Stderr, "ops=%d goroutines=%d heapInuse=%dMB sys=%dMB\n", plugOps4Prof, runtime.NumGoroutine(), ms.HeapInuse>>20, ms.Sys>>20)
+	if w, err := os.Create(f); err == nil {
+		_ = pprof.WriteHeapProfile(w)
+		w.Close()
+	}
+	if w, err := os.Create(f + ".goroutines"); err == nil {
+		_ = pprof.Lookup("goroutine").WriteTo(w, 1)
+		w.Close()
+	}
+}
+
 func plugExec(tok []string) string {
 	if pst == nil {
 		plugReset()
 	}
+	plugProf()
 	switch tok[0] {
 	case "reset":
 		plugReset()
@@ -524,12 +679,12 @@ var (
 	plugBs       = []string{"", "bob", "10.0.0.1:5", "ü"}
 	plugReasons  = []string{"no", "", "denied: x", "send Login request to plugin error", "é!"}
 	plugStubK    = []string{"acc", "acc", "acc", "acc", "acc", "acc", "app", "app", "app", "app", "app", "app", "setb", "accC", "setb", "zero", "rej", "rejmod", "err", "nil", "rejsuf", "rejsuf", "errsuf"}
-	plugHTTPK    = []string{"hacc", "hacc", "hacc", "hacc", "hacc", "hacc", "happ", "happ", "happ", "happ", "happ", "happ", "happ", "happ", "hct", "hpart", "haccC", "hct", "hpart", "haccC", "hrej", "hrejU", "hempty", "hnull", "hcnull", "hcnullU", "hcstr", "hbadfield", "hmal", "htrunc", "hs500", "hs404", "hs201", "hs204", "hs302", "hs403", "hreset", "hrefused", "hrejsuf", "hrejsuf", "herrsuf", "herrsuf"}
+	plugHTTPK    = []string{"hacc", "hacc", "hacc", "hacc", "hacc", "hacc", "happ", "happ", "happ", "happ", "happ", "happ", "happ", "happ", "hct", "hpart", "haccC", "hct", "hpart", "haccC", "hrej", "hrejU", "hempty", "hnull", "hcnull", "hcnullU", "hcstr", "hbadfield", "hmal", "htrunc", "hs500", "hs404", "hs201", "hs204", "hs302", "hs403", "hreset", "hrefused", "hrejsuf", "hrejsuf", "herrsuf", "herrsuf", "hxlat", "hsub", "hsub"}
 	plugMalBody  = []string{"", "{", "not json", `{"unchange":true} trailing`, `[1,2]`, `"str"`, `123`, `{"unchange":tru}`, "nul", "\ufeff{}", `{"reject":false,"unchange":true`, `{"content":{"user":1}}x`}
 	plugRawBytes = []string{"\xff\xfe", "\x00", "a\xc3", "\xed\xa0\x80", "\x7f\x80"}
 )
 
-func plugGenReg(rng *rand.Rand, id int, httpOK bool, raw bool, httpOnly bool, emit func(string)) {
+func plugGenReg(rng *rand.Rand, id int, httpOK bool, raw bool, httpOnly bool, emit func(string)) []string {
 	// op subset
 	ops := []string{}
 	switch rng.Intn(10) {
@@ -595,8 +750,12 @@ func plugGenReg(rng *rand.Rand, id int, httpOK bool, raw bool, httpOnly bool, em
 		}
 	case "hmal":
 		x1 = pick(rng, plugMalBody)
+	case "hxlat", "hsub": // the contents the calls and scenarios use, so that the translation applies now and then
+		x1 = pick(rng, append(append([]string{}, plugAs...), "web", "q", "bob"))
+		x2 = pick(rng, plugAs) + tag()
 	}
 	emit(fmt.Sprintf("reg %d %s %s %s %s", id, opsTok, kind, hx(x1), hx(x2)))
+	return ops
 }
 
 // script of a `sess` scenario (eng_plugin_sess.go): 0…6 steps over a small pool of proxy names, so that
@@ -668,13 +827,14 @@ func plugGen(rng *rand.Rand, n int, emit func(string)) {
 		raw := rng.Intn(8) == 0 // malformed stream: arbitrary bytes, stubs only (JSON would mangle them)
 		httpOK := !raw && rng.Intn(5) != 0
 		httpOnly := httpOK && rng.Intn(3) == 0 // chains the call-site scenario (`site`) can run on
-		k := rng.Intn(7) // 0…6 plugins
+		k := rng.Intn(7)                       // 0…6 plugins
 		id := 0
+		opsOf := map[int][]string{} // per id the operations it was registered for
 		for i := 0; i < k; i++ {
 			id++
-			plugGenReg(rng, id, httpOK, raw, httpOnly, e)
+			opsOf[id] = append(opsOf[id], plugGenReg(rng, id, httpOK, raw, httpOnly, e)...)
 			if rng.Intn(15) == 0 { // the same id registered twice (another behaviour)
-				plugGenReg(rng, id, httpOK, raw, httpOnly, e)
+				opsOf[id] = append(opsOf[id], plugGenReg(rng, id, httpOK, raw, httpOnly, e)...)
 			}
 		}
 		calls := 4 + rng.Intn(8)
@@ -693,12 +853,12 @@ func plugGen(rng *rand.Rand, n int, emit func(string)) {
 			if httpOnly && rng.Intn(3) == 0 {
 				e("sess " + hx(pick(rng, []string{"", "u", "alice", "né"})) + " " + plugGenScript(rng))
 			}
-			if httpOnly && rng.Intn(6) == 0 {
-				e("hist " + plugGenHist(rng, id))
+			if httpOnly && rng.Intn(4) == 0 {
+				e("hist " + plugGenHist(rng, id, opsOf))
 			}
 			if rng.Intn(10) == 0 && id < 8 { // late registration
 				id++
-				plugGenReg(rng, id, httpOK, raw, httpOnly, e)
+				opsOf[id] = append(opsOf[id], plugGenReg(rng, id, httpOK, raw, httpOnly, e)...)
 			}
 		}
 	}
